@@ -39,6 +39,45 @@ SCALAR = {"enum": "encInt32", "bool": "encBool", "byte": "encInt8", "short": "en
           "unsigned byte": "encInt16", "unsigned short": "encInt32", "unsigned int": "encInt64",
           "string": "encString"}
 
+# reader spec per IDL type: (kind function, extra width argument, value expression over V)
+READER = {"enum": ("decIntK", ", 4", "decIntV", "decIntP", "{V}"), "int": ("decIntK", ", 4", "decIntV", "decIntP", "{V}"),
+          "byte": ("decIntK", ", 1", "decIntV", "decIntP", "{V}"), "short": ("decIntK", ", 2", "decIntV", "decIntP", "{V}"),
+          "long": ("decIntK", ", 8", "decIntV", "decIntP", "{V}"), "bool": ("decIntK", ", 1", "decIntV", "decIntP", "({V} != 0)"),
+          "unsigned byte": ("decIntK", ", 2", "decIntV", "decIntP", "u8({V})"), "unsigned short": ("decIntK", ", 4", "decIntV", "decIntP", "u16({V})"),
+          "unsigned int": ("decIntK", ", 8", "decIntV", "decIntP", "u32({V})"), "string": ("decStrK", "", "decStrV", "decStrP", "{V}")}
+
+def scalar_struct(mem):
+    return all(m[2] in SCALAR for m in mem) and len(mem) > 0
+
+def default_of(ity, dflt):
+    if dflt is None:
+        return None
+    return dflt
+
+def reader_schema(pkg, ty, mem, fields):
+    """lets and ensures of ReadFrom for a scalar struct: the schema-directed reference decoder.
+    q<k> is the cursor after member k; k<k> its outcome (0 present, 1 absent); ok<k>: all members so far are
+    present or cleanly absent. A member that is present gets the decoded value, an absent optional member keeps
+    what ResetDefault left (its declared default, or its previous content when none is declared)."""
+    lets, ens = ["//@   let q0 = readBuf.buf.i"], []
+    prev_ok = None
+    for n, (tag, req, ity, name, dflt) in enumerate(sorted(mem), 1):
+        K, W, V, P, vexp = READER[ity]
+        f = "st." + fields[name][0]
+        reqs = "true" if req else "false"
+        args = "src, q%d, %d" % (n - 1, tag)
+        lets.append("//@   let k%d = %s(%s, %s%s, d0)" % (n, K, args, reqs, W))
+        lets.append("//@   let q%d = (k%d == 0 ? %s(%s, d0) : seekP(%s, d0))" % (n, n, P, args, args))
+        okk = "(k%d == 0 || (k%d == 1 && (seekK(%s, d0) == 2 || (seekK(%s, d0) == 1 && seekCanon(%s, d0)))))" % (n, n, args, args, args)
+        lets.append("//@   let ok%d = %s%s" % (n, ("ok%d && " % (n - 1)) if prev_ok else "", okk))
+        prev_ok = n
+        val = vexp.replace("{V}", "%s(%s, d0)" % (V, args))
+        d = default_of(ity, dflt)
+        absent = d if d is not None else "old(%s)" % f
+        ens.append("//@   ensures [C04] (ok%d && err == nil) ==> %s == (k%d == 0 ? %s : %s)" % (n, f, n, val, absent))
+    ens.append("//@   ensures [C04] ok%d ==> (err == nil && readBuf.buf.i == q%d)" % (prev_ok, prev_ok))
+    return lets, ens
+
 def idl_structs(pkg):
     """{struct: [(tag, required, type, name, default)]} parsed from the .tars file (comments stripped)"""
     text = open("%s/tars/protocol/res/%s" % (REPO, IDL[pkg])).read()
@@ -135,8 +174,24 @@ def gen(pkg):
             done.add(ty)
             o += schema_contract(pkg, ty, idl[ty], go_fields(src, ty))
         if name == "ResetDefault":
-            o += ["//@ func (*%s).ResetDefault" % ty, "//@   requires st != nil", "//@   modifies *st", "//@   safety [C05]", "//"]
+            dfl = []
+            if ty in idl and scalar_struct(idl[ty]):
+                flds = go_fields(src, ty)
+                dfl = [("st." + flds[n][0], d) for (_, _, _, n, d) in sorted(idl[ty]) if d is not None]
+            o += ["//@ func (*%s).ResetDefault" % ty, "//@   requires st != nil"]
+            if dfl:
+                o += ["//@   modifies " + ", ".join(f for f, _ in dfl),
+                      "//@   ensures [C04] " + " && ".join("%s == %s" % (f, d) for f, d in dfl)]
+            elif ty in idl and scalar_struct(idl[ty]):
+                o += ["//@   pure"]
+            else:
+                o += ["//@   modifies *st"]
+            o += ["//@   safety [C05]", "//"]
         elif name == "ReadFrom":
+            lets, ens = [], []
+            if ty in idl and scalar_struct(idl[ty]):
+                lets, ens = reader_schema(pkg, ty, idl[ty], go_fields(src, ty))
+                lets = ["//@   let src = readBuf.buf.src", "//@   let d0 = readBuf.depth"] + lets + ["//@   opaque [C04] *", "//@   perreturn"]
             o += ["//@ func (*%s).ReadFrom" % ty,
                   "//@   requires st != nil && validR(readBuf)",
                   "//@   let p0 = readBuf.buf.i",
@@ -144,7 +199,7 @@ def gen(pkg):
                   "//@   modifies *st, readBuf.buf.i, readBuf.depth",
                   "//@   allocates",
                   "//@   ensures [C05] readBuf.buf.i >= p0",
-                  "//@   ensures [C05] validR(readBuf)"]
+                  "//@   ensures [C05] validR(readBuf)"] + lets + ens
             for k, (shape, fld) in enumerate(loops(body)):
                 inv = "validR(readBuf) && readBuf.buf.i >= p0 && st != nil"
                 if shape == 'vec':
